@@ -2,7 +2,7 @@
 \* violates the property in the four named situations only (CorrectModuloKnown), for every
 \* list of length 0..MaxLen over Alphabet x outcomes (<= MaxFaults faults) x schedules.
 \* The driver overrides Alphabet / MaxLen / MaxFaults / ReqInline per run (see cmd/c20/main.go);
-\* measured with the constants below: 18,250 distinct states (30,634 generated), 4 s;
+\* measured with the constants below: 18,250 distinct states (30,634 generated), 4 s (before the @requires-value kinds; unchanged for this alphabet);
 \* MC_Entities_fixed.cfg: 21,184; MC_Entities_emit.cfg (order in the state): 25,080 states, 1,414 behaviours.
 SPECIFICATION Spec
 CONSTANTS
